@@ -16,7 +16,9 @@ RULE = ("Hypothesis draws d in {2,3,50,300,1000(,3000)} or 2..40, cycled mode-si
         "power-of-two scale vector given by (pattern in uniform / left end / right end / alternating / two halves / single core, target total "
         "in [-30000, 30000], amplitude); second operands are independent (own scale profile around the same or another total, "
         "or the same profile plus a gap), identical, perturbed in one core, support-disjoint, or "
-        "scaled oppositely (entries up to 2^+-1000 with a representable product per core). Oracle = harness.oracle.gram_ref "
+        "scaled oppositely (entries up to 2^+-1000 with a representable product per core), or tilted (slice i of every core of Y1 "
+        "times 2^(-w i), of Y2 times 2^(-w (n-1-i)), w <= 480: both norms and every core stay where they were, every step of <Y1,Y2> "
+        "shrinks by 2^(-w (n-1)), so the value leaves the range through the profiles along the modes). Oracle = harness.oracle.gram_ref "
         "(frexp-renormalised Gram recursion with unbounded integer exponent) with a conditioning-aware first-order rounding bound "
         "obtained from a left and a right sweep of the same recursion on |cores|; metamorphic power-of-two rescaling of one core. "
         "Sub-check zero_terms: accuracy of pairs for which one or two of <Y1,Y1>, <Y1,Y2>, <Y2,Y2> are EXACTLY zero (Y1 all zero, one zero "
@@ -30,6 +32,13 @@ RULE = ("Hypothesis draws d in {2,3,50,300,1000(,3000)} or 2..40, cycled mode-si
         "Sub-check one_core: ONE core (first / last / second / last but one / middle / drawn) multiplied by 2^s, |s| in 512..990 (down to -900), "
         "every other core ordinary, rank profiles generic / 1,1,r,..,r,1,1 / rank-1 bond at one end / all 1: orthogonalize (every pivot) and "
         "truncate with use_stab against the reference and against the same call with that core at an ordinary scale. "
+        "Sub-check extreme_cores: mul_scalar (both argument orders) / norm (both tensors) / accuracy (both orders) with ONE or TWO cores "
+        "multiplied exactly by 2^s, 512 <= |s| <= 1000, every other core ordinary (any total, or all of size O(1)): one core of Y1 / of Y2, "
+        "the same factor in both operands (same / different position), two cores of one operand, one core in each operand (same / other "
+        "position), exponents of the same or of opposite signs, position first / last / second / last but one / middle / drawn, "
+        "teneva.mul(2.**s, Y) as the producer (whole factor in core 0); pairs independent / one core perturbed / Y1 = (1+2^-q) Y2 / equal "
+        "/ sharing core objects; a twelfth with an exactly zero core in Y1; each result against the unbounded-exponent reference and "
+        "against the same call on the pair without the factors. "
         "Non-trivial = the plain (use_stab=False) computation is not finite-and-normal while the reference value is non-zero; "
         "distinct by SHA-1 of the case.")
 TOLERANCES = ("scalar product: |v 2^p / ref - 1| <= 8 eps sum_k (r1 s1 + n + 2) rho_k, rho_k = ||T_k^abs |v_k|||_2 ||W_k+1||_2 / |<Y1,Y2>| "
@@ -47,21 +56,36 @@ TOLERANCES = ("scalar product: |v 2^p / ref - 1| <= 8 eps sum_k (r1 s1 + n + 2) 
               "through R @ G / G @ R and core_stab: exact scalings), the tensor is not over-ranked, the Gram bound is <= 1e-3 and the pivot "
               "maximum is not within 1e-12 of a power of two, else equal tensors within 2x the rounding bound of three reference Gram values; "
               "truncate: distance^2 to 2^s times the rounding of the ordinary tensor <= (2e(1+1e-3)/(1-e))^2 + 64 (d-1) R eps + rounding, "
-              "and equal within rounding when the ranks agree and the orthogonalised cores are bit-identical by the rule above")
+              "and equal within rounding when the ranks agree and the orthogonalised cores are bit-identical by the rule above; "
+              "extreme_cores: value bounds as for scalar / norm / accuracy (the rounding bound does not depend on the scales); shift relation: "
+              "mul_scalar exponent = that of the ordinary pair + the sum of all shifts, norm exponent + the sum of the shifts of that tensor, "
+              "mantissa bit-identical (same denoted value if a mantissa is within 8 eps of 1 or below 1: floor(log2) at a power of two), "
+              "asserted whenever the scaling of the inputs was exact (no entry of a scaled core subnormal); accuracy with equal total "
+              "factors in both operands = accuracy of the ordinary pair, bit-identical or within 8 eps (saturation values equal, or the other "
+              "value within 2^+-499 of the threshold); stabilised = plain only if additionally every entry-wise product of one step is "
+              "representable (log2 of max|G1| max|G2| within +-970)")
 ASSUMPTIONS = ["d >= 2",
-               "every single contraction step is representable: per-core scales s_k in [-480, 480] (pair sums s1_k + s2_k in [-960, 960]; "
-               "cores of 2^520 make G1*G2 overflow inside mul_scalar and cores of 2^-520 make it underflow) - the overflow/underflow of "
-               "the whole quantity comes from the product over many cores; the `opposed` operands of mul_scalar have entries up to 2^+-900 "
-               "with pair sums in the same window",
+               "every entry of every core is a finite double; a scaled core has entries between 2^-1030 and 2^1010 (|s| <= 1000 on bulk "
+               "values of 2^-28..2^9; beyond 2^+-1022 core_stab cannot represent 2.**p), entries that become subnormal make the "
+               "bit-for-bit shift relation inapplicable (the scaling of the input was not exact) but not the value oracles",
+               "generator choice, not a domain restriction of mul_scalar / norm / accuracy (since repo 6e41839 both cores of a step are "
+               "rescaled before they are multiplied): the bulk families scalar / norm / accuracy / zero_terms / shared / tiny keep per-core "
+               "scales s_k in [-480, 480] (`opposed` operands: entries up to 2^+-900 with pair sums in [-960, 960]) - there the "
+               "overflow / underflow comes from the product over many cores; single cores and pairs of cores with |s| in 512..1000 at any "
+               "position of either operand are the sub-check extreme_cores",
+               "orthogonalize / truncate: per-core scales in [-480, 480] except the one core of sub-check one_core; the core a sweep starts "
+               "from is factorised as the caller gave it and R of it times its neighbour is formed before any rescaling, so the end "
+               "pairs (0, 1) and (d-2, d-1) have |s_a + s_b| <= 980 and s >= -900 (products with the core stay normal numbers)",
                "bulk values of modulus < 2^-20 are replaced by 2^-20 in the U(-1,1) family (no subnormal products at the edge of the window)",
+               "tilted operands: w is clipped per core so that every entry stays above 2^-1000 (w (n-1) <= 976 + min(s1_k, s2_k)); the "
+               "rescaling relation of one core is asserted only if no entry of the rescaled core became subnormal (checked on the data)",
                "Y2 of accuracy is not the zero tensor (the documented return for it is the undecided -1 # TODO); Y1 may be zero and the "
                "pair may be exactly orthogonal",
-               "one_core: only orthogonalize / truncate (mul_scalar(Y, Y) / norm / accuracy form G1 * G2 per core, i.e. the squares); the end "
-               "pairs (0, 1) and (d-2, d-1) have |s_a + s_b| <= 980 (R of the unscaled end core times its neighbour is formed before any "
-               "rescaling); s >= -900 (products with the core stay normal numbers)",
+               "the plain (use_stab=False) result is compared only when every partial product and every entry-wise product G1 * G2 of a "
+               "step is representable",
                "shared core objects: all repeated cores of one chain have the same shape (r, n, r) and one power-of-two scale per object"]
 
-LO, HI = -480, 480            # per-core log2 scale window
+LO, HI = -480, 480            # per-core log2 scale window of the bulk families (generator choice, see ASSUMPTIONS)
 EXACT_LO = -900               # a contraction step of at least this log2 size scales exactly under a power-of-two factor (no subnormal terms)
 KTOL = 8.0
 GATE = 1e-3                   # value assertions are made when the derived relative bound is below this
@@ -191,6 +215,7 @@ class Gram:
         self.zero = False
         self.m, self.p, self.tol = 0.0, 0, 0.0
         self.lo_path, self.hi_path = 0, 0
+        self.step_lo, self.step_hi = 0, 0
         Ms, Mas, es, cs = [], [], [], []
         for A, B in zip(Y1, Y2):
             ma, mb = float(np.max(np.abs(A))), float(np.max(np.abs(B)))
@@ -216,7 +241,7 @@ class Gram:
                 self.zero = True
                 return
             e = math.frexp(mw)[1]
-            maj[k] = math.ldexp(float(np.linalg.norm(np.abs(v) @ Mas[k])), -e)
+            maj[k] = float(np.linalg.norm(np.ldexp(np.abs(v) @ Mas[k], -e)))       # scaled first: the squares of a tiny step underflow
             v = np.ldexp(w, -e)
             P += es[k] + e
             Ps.append(P)
@@ -241,6 +266,7 @@ class Gram:
         self.rho_max = float(np.max(rho))
         self.tol = float(KTOL * EPS * np.sum(np.array(cs, dtype=float) * rho))
         self.lo_path, self.hi_path = min(Ps), max(Ps)
+        self.step_lo, self.step_hi = min(es), max(es)             # log2 size of the largest entry-wise product G1 * G2 of one step
 
     def log2(self):
         return math.log2(abs(self.m)) + self.p
@@ -340,9 +366,10 @@ def scalar_cases(draw, tier, tiny=False):
     Y1 = draw(tensor_specs(d))
     Y2 = draw(tensor_specs(d))
     Y2["nm"] = Y1["nm"]
-    rel = draw(st.sampled_from(["indep"] * 5 + ["same", "disjoint", "opposed", "opposed"]))
+    rel = draw(st.sampled_from(["indep"] * 5 + ["same", "disjoint", "opposed", "opposed", "tilted", "tilted"]))
     return {"Y1": Y1, "Y2": Y2, "rel": rel, "sc1": draw(scale_specs(tiny)), "sc2": draw(scale_specs(tiny)),
-            "same_scales": draw(st.booleans()), "shift": draw(shifts()), "tiny": tiny}
+            "same_scales": draw(st.booleans()), "shift": draw(shifts()), "tiny": tiny,
+            "tilt": draw(st.one_of(st.integers(0, 480), st.sampled_from([135, 248, 270, 480])))}
 
 
 ZERO_RELS = ["y1zero", "y1zero", "zerocore", "zerocore", "zerocore", "disjoint", "disjoint", "disjoint"]
@@ -449,6 +476,19 @@ def pair_from_case(case):
             Y2[j][:, 0, :] = 0.0
         else:
             rel = "indep"
+    if rel == "tilted":
+        # opposite profiles ALONG the modes: slice i of a core of Y1 times 2^(-w i), of Y2 times 2^(-w (n-1-i)) (exp(-c x) against
+        # exp(c x) on a grid).  Every core keeps its largest entry, both norms stay where they were, but every step of the scalar
+        # product shrinks by 2^(-w (n-1)): the value leaves the double range although no core does (entries stay above 2^-1000).
+        n = mode_sizes(case["Y1"])
+        if max(n) < 2:
+            rel = "indep"
+        for k in range(d):
+            if n[k] >= 2:
+                w = min(int(case.get("tilt", 0)), (1000 - 24 + int(min(s1[k], s2[k]))) // (n[k] - 1))
+                i = np.arange(n[k])
+                Y1[k] = np.ldexp(Y1[k], (-w * i)[None, :, None])
+                Y2[k] = np.ldexp(Y2[k], (-w * (n[k] - 1 - i))[None, :, None])
     return Y1, Y2, s1, s2, rel
 
 
@@ -472,7 +512,7 @@ def run_scalar(ctx, Y1, Y2, s1, s2, shift):
     check_scalar_value(g, ctx, v, p, ref, rv, rp, "mul_scalar(use_stab=True)")
     # the plain computation
     plain = ctx.lib(teneva.mul_scalar, Y1, Y2)
-    representable = (not ref.zero) and normal_finite(plain) and -900 < ref.lo_path and ref.hi_path < 900
+    representable = (not ref.zero) and normal_finite(plain) and -900 < ref.lo_path and ref.hi_path < 900 and -970 < ref.step_lo and ref.step_hi < 970
     if representable and ref.tol <= GATE:
         sv = math.ldexp(v, p) if abs(p) < 1000 else math.inf
         g.check(abs(sv - plain) <= 2 * ref.tol * abs(plain), "mul_scalar: v * 2^p differs from the plain result although everything is representable",
@@ -484,13 +524,17 @@ def run_scalar(ctx, Y1, Y2, s1, s2, shift):
         ctx.label("plain_overflows" if not math.isfinite(plain) or abs(plain) >= 1e290 else "plain_underflows")
     # rescaling core j of Y1 by 2^s shifts p by s and nothing else.  Exact when step j has no subnormal terms; a term of the state that
     # is 2^-122 below its maximum may still be flushed, which is invisible in the result only if no later step amplifies it: tol <= GATE.
+    if shift is None:
+        return v, p, ref, (rv, rp), plain, representable
     j = shift["jf"] % d
     t = int(s1[j] + s2[j])
     lo, hi = LO, HI
     s = max(EXACT_LO - t, min(2 * hi - t, shift["s"]))
     s = max(-960 - int(s1[j]), min(960 - int(s1[j]), s))
-    if s != 0 and not ref.zero and ref.tol <= GATE and t >= EXACT_LO and EXACT_LO <= t + s <= 2 * hi:
-        v2, p2 = ctx.lib(teneva.mul_scalar, rescale(Y1, j, s), Y2, use_stab=True)
+    Z1 = rescale(Y1, j, s)
+    lossless = bool(np.all(np.isfinite(Z1[j]))) and np.ldexp(Z1[j], -s).tobytes() == Y1[j].tobytes()   # no entry became subnormal
+    if s != 0 and not ref.zero and ref.tol <= GATE and t >= EXACT_LO and EXACT_LO <= t + s <= 2 * hi and lossless:
+        v2, p2 = ctx.lib(teneva.mul_scalar, Z1, Y2, use_stab=True)
         near = abs(abs(v) - 1.0) <= 8 * EPS or abs(v2) < 1.0 or abs(v) < 1.0
         if near:        # floor(log2) at a power of two may round either way: the denoted value is still the same
             ctx.check(same_value(v, p + s, v2, p2), "mul_scalar: rescaling one core by 2^s changed the denoted value", s=s, j=j, before=(v, p), after=(v2, p2))
@@ -547,7 +591,7 @@ def run_norm(ctx, Y, s, shift):
     unchanged(ctx, Y, snap, "norm")
     check_norm_value(g, ctx, z, q, ref, rv, rp, what)
     plain = float(ctx.lib(teneva.norm, Y))
-    representable = (not ref.zero) and normal_finite(plain) and -900 < ref.lo_path and ref.hi_path < 900
+    representable = (not ref.zero) and normal_finite(plain) and -900 < ref.lo_path and ref.hi_path < 900 and -970 < ref.step_lo and ref.step_hi < 970
     if representable and ref.tol <= GATE:
         sv = float(z) * 2.0 ** q
         g.check(abs(sv - plain) <= (ref.tol + 8 * EPS) * plain, "norm: v * 2^p differs from the plain norm although everything is representable",
@@ -557,6 +601,8 @@ def run_norm(ctx, Y, s, shift):
     ctx.nontrivial(nt)
     if nt:
         ctx.label("plain_overflows" if not math.isfinite(plain) or plain >= 1e290 or plain != plain else "plain_underflows")
+    if shift is None:
+        return float(z), q, ref, plain, representable
     j = shift["jf"] % d
     lo, hi = LO, HI
     sh = max(EXACT_LO // 2 - int(s[j]), min(hi - int(s[j]), shift["s"]))
@@ -711,6 +757,8 @@ def run_accuracy(ctx, Y1, Y2, s1, s2, shift):
     # rescaling the same core of both tensors by 2^s leaves the relative distance bit-identical: every Gram term keeps its mantissa
     # (exact when step j has no subnormal terms and no flushed term is amplified later, i.e. moderate rounding bounds)
     # (an exactly zero Gram term stays exactly zero; the exponent the library attaches to it is meaningless and must not matter)
+    if shift is None:
+        return acc, asserted
     j = shift["jf"] % d
     lo, hi = LO, HI
     a, b = int(min(s1[j], s2[j])), int(max(s1[j], s2[j]))
@@ -1128,8 +1176,8 @@ def prop_shared(case, ctx):
 # teneva.mul(number, Y) puts the whole factor into core 0, a boundary condition or a weight often sits in the last core: ONE core has
 # entries beyond 2^+-512 (its squares are not representable) while every other core is ordinary.  orthogonalize / truncate never square
 # an entry (LAPACK's QR / RQ use scaled norms) and rescale every core before it is factorised, except the core a sweep starts from,
-# which is factorised as the caller gave it.  The routines that do square the entries (mul_scalar(Y, Y), norm, accuracy: G1 * G2 per
-# core) are outside their domain here, see ASSUMPTIONS; mul_scalar of such a tensor with an oppositely scaled one is the `opposed` family.
+# which is factorised as the caller gave it.  The Gram routines (mul_scalar, norm, accuracy) on such tensors are the sub-check
+# extreme_cores below.
 # Oracles: all of run_orth / run_truncate on the tensor itself, and the shift relation against the same tensor with that core at an
 # ordinary scale: the exponent moves by s and nothing else (bit for bit where every operation on the core is an exact scaling).
 
@@ -1224,6 +1272,201 @@ def prop_one_core(case, ctx):
                 same_tensor(ctx, what, Z, 0, Z0, sh)
 
 
+# ------------------------------------------------------------------------------------------- extreme cores in the Gram routines
+# mul_scalar / norm / accuracy with ONE or TWO cores scaled exactly by 2^s, 512 <= |s| <= 1000, every other core ordinary (the squares
+# of the entries of such a core, and the products of two of them, are not representable): Y = teneva.mul(2.**600, Y0) puts the whole
+# factor into core 0.  Before repo commit 6e41839 mul_scalar(use_stab=True) multiplied the two cores of a step before any rescaling
+# (OverflowError / ValueError for 2^600, a silent (0, 0) for 2^-600, accuracy -1).  Placements: one core of Y1 / of Y2, the same factor
+# in both operands (same or different position), two cores of one operand, one core in each operand (same-sign or opposite-sign
+# exponents, same or different positions), teneva.mul(2.**s, .) as the producer.
+# Oracles: everything of run_scalar / run_norm / run_accuracy on the scaled pair (unbounded-exponent reference), and the shift relation
+# against the SAME routine on the ordinary pair: the exponent moves by the sum of the shifts, the mantissa stays bit-identical;
+# accuracy is that of the ordinary pair when both operands carry the same total factor.
+
+XPOS = ["first", "first", "last", "last", "second", "penult", "mid", "frac", "frac"]
+XFORMS = ["one1", "one1", "one2", "one2", "same", "same", "same_other", "two1", "two1", "two2", "split", "split", "split_pos",
+          "mul", "mul", "mul_both"]
+XMAG = st.one_of(st.integers(512, 1000), st.integers(512, 540), st.integers(960, 1000), st.sampled_from([512, 600, 1000]))
+XRELS = ["indep"] * 4 + ["perturbed"] * 3 + ["factor", "factor", "same", "shallow", "shallow"]
+
+
+@st.composite
+def extreme_cases(draw, tier):
+    big = [2, 3, 3, 4, 50, 50, 300] if tier == "quick" else [2, 3, 4, 50, 50, 300, 300, 1000, 3000]
+    d = draw(st.one_of(st.sampled_from(big), st.integers(2, 40)))
+    Y1 = draw(tensor_specs(d))
+    Y2 = draw(tensor_specs(d))
+    Y2["nm"] = Y1["nm"]
+    return {"Y1": Y1, "Y2": Y2, "rel": draw(st.sampled_from(XRELS)), "q": draw(st.integers(0, 45)), "pj": draw(st.integers(0, 10 ** 6)),
+            "sc": draw(scale_specs()), "sc2": draw(scale_specs()), "own_scales": draw(st.booleans()),
+            "dtotal": draw(st.one_of(st.just(0), st.integers(-40, 40), st.integers(-620, 620))),
+            "moderate": draw(st.booleans()),                        # every other core (and their product) of size O(1)
+            "form": draw(st.sampled_from(XFORMS)),
+            "pos": [draw(st.sampled_from(XPOS)), draw(st.sampled_from(XPOS))], "jf": [draw(st.integers(0, 10 ** 6)), draw(st.integers(0, 10 ** 6))],
+            "mag": [draw(XMAG), draw(XMAG)], "neg": [draw(st.booleans()), draw(st.booleans())],
+            "t0": [draw(st.integers(-8, 8)), draw(st.integers(-8, 8))],
+            "op": draw(st.sampled_from(["scalar", "scalar", "norm", "accuracy", "accuracy"])),
+            "pairup": draw(st.sampled_from([True, True, False])),     # accuracy: mostly the same factor in both operands
+            "zero": draw(st.sampled_from([False] * 11 + [True])), "zj": draw(st.integers(0, 10 ** 6))}
+
+
+def xpos(d, name, jf):
+    return {"first": 0, "last": d - 1, "second": min(1, d - 1), "penult": max(d - 2, 0), "mid": d // 2, "frac": jf % d}[name]
+
+
+def extreme_placements(case):
+    """[(operand, position, log2 shift)] and the effective form (mul / mul_both: teneva.mul(number, .) produces the scaled operands)."""
+    d, form = case["Y1"]["d"], case["form"]
+    j, k = (xpos(d, case["pos"][i], case["jf"][i]) for i in (0, 1))
+    a, b = (case["mag"][i] * (-1 if case["neg"][i] else 1) for i in (0, 1))
+    if case["op"] == "accuracy" and case["pairup"]:
+        form = {"one1": "same", "one2": "same_other", "split": "same_other", "mul": "mul_both"}.get(form, form)
+    if form in ("two1", "two2") and k == j:
+        k = (j + 1) % d
+    return {"one1": [(1, j, a)], "one2": [(2, j, a)], "same": [(1, j, a), (2, j, a)], "same_other": [(1, j, a), (2, k, a)],
+            "two1": [(1, j, a), (1, k, b)], "two2": [(2, j, a), (2, k, b)], "split": [(1, j, a), (2, k, b)],
+            "split_pos": [(1, j, a), (2, j, b)], "mul": [(1, 0, a)], "mul_both": [(1, 0, a), (2, 0, a)]}[form], form
+
+
+def extreme_pair(case, ctx):
+    """The ordinary pair (Y1_0, Y2_0), the pair with the extreme cores (Y1, Y2), the total log2 shift of each operand, and whether
+    every scaling was exact (no entry of a scaled core is subnormal)."""
+    d, rel = case["Y1"]["d"], case["rel"]
+    places, form = extreme_placements(case)
+    by_mul = form in ("mul", "mul_both")
+    sc = dict(case["sc"])
+    if case["moderate"]:
+        sc["pat"], sc["total"] = "uniform", sc["total"] % 121 - 60
+    s1 = np.array(scales(d, sc, LO, HI), dtype=np.int64)
+    if rel == "indep" and case["own_scales"]:
+        sc2 = dict(case["sc2"])
+        sc2["total"] = sc["total"] + case["dtotal"]
+        if case["moderate"]:
+            sc2["pat"] = "uniform"
+        s2 = np.array(scales(d, sc2, LO, HI), dtype=np.int64)
+    else:
+        s2 = s1.copy()
+    for i, (_, pos, _) in enumerate(places):                        # the cores that will be scaled are ordinary before
+        s1[pos] = s2[pos] = case["t0"][i]
+    A = build(case["Y1"], s1)
+    pj = case["pj"] % d
+    rng = np.random.default_rng(case["Y2"]["seed"])
+    if rel == "indep":
+        Y1_0, Y2_0 = A, build(case["Y2"], s2)
+    elif rel == "factor":                                           # Y1 = (1 + 2^-q) Y2, the factor sits in one core
+        Y1_0, Y2_0 = list(A), [G.copy() for G in A]
+        Y1_0[pj] = A[pj] * (1.0 + 2.0 ** -case["q"])
+    else:
+        Y1_0 = A
+        Y2_0 = list(A) if rel == "shallow" else [G.copy() for G in A]   # shallow: the two tensors share their core objects
+        if rel != "same":
+            Y2_0[pj] = A[pj] * (1.0 + 2.0 ** -case["q"] * rng.uniform(-1, 1, size=A[pj].shape))
+    if case["zero"]:
+        Y1_0 = list(Y1_0)
+        Y1_0[case["zj"] % d] = np.zeros_like(Y1_0[case["zj"] % d])
+    Y1, Y2, S, exact, done = list(Y1_0), list(Y2_0), [0, 0], True, {}
+    for (o, pos, sh) in places:
+        Y = Y1 if o == 1 else Y2
+        G = Y[pos]
+        key = (id(G), sh)
+        if key not in done:                                         # a core object shared by the two tensors stays shared
+            H = np.ldexp(G, sh)
+            exact = exact and bool(np.all(np.isfinite(H))) and np.ldexp(H, -sh).tobytes() == G.tobytes()
+            done[key] = (H, G)
+        Y[pos] = done[key][0]
+        S[o - 1] += sh
+    if by_mul:
+        # the library as the producer of the scaled operand: teneva.mul(number, Y) (the whole factor goes into one core)
+        M1 = ctx.lib(teneva.mul, 2.0 ** places[0][2], Y1_0)
+        exact = exact and bitwise_same(M1, Y1)
+        Y1 = M1
+        if len(places) == 2:
+            M2 = ctx.lib(teneva.mul, Y2_0, 2.0 ** places[1][2])
+            exact = exact and bitwise_same(M2, Y2)
+            Y2 = M2
+    return Y1_0, Y2_0, Y1, Y2, S, exact, places, form
+
+
+def shifted_stab(ctx, what, res, res0, S, exact, half=False):
+    """(v, p) for the scaled operands against (v0, p0) for the ordinary ones: p = p0 + S and v = v0 bit for bit (every operation on a
+    scaled core is an exact scaling); floor(log2) within an ulp of a power of two may move one factor of 2 between v and p."""
+    (v, p), (v0, p0) = (float(res[0]), res[1]), (float(res0[0]), res0[1])
+    if v == 0 or v0 == 0:
+        ctx.check(v == 0 and v0 == 0, f"{what}: zero for one of (scaled, ordinary) operands only", scaled=(v, p), ordinary=(v0, p0), s=S)
+        return
+    if not exact:
+        ctx.label("shift:inexact_scaling")
+        return
+    if abs(abs(v0) - 1.0) <= 8 * EPS or abs(v) < 1.0 or abs(v0) < 1.0:
+        if half:
+            ok = abs(p - p0 - S) <= 1 and abs(v * 2.0 ** (p - p0 - S) - v0) <= 4 * EPS * abs(v0)
+        else:
+            ok = same_value(v0, p0 + S, v, p)
+        ctx.check(ok, f"{what}: scaling cores by powers of two (total 2^s) changed the denoted value", s=S, ordinary=(v0, p0), scaled=(v, p))
+        ctx.label("shift:same_value")
+    else:
+        ctx.check(p == p0 + S and v == v0, f"{what}: scaling cores by powers of two (total 2^s) must shift the exponent by s and keep "
+                  "the mantissa bit-identical", s=S, ordinary=(v0, p0), scaled=(v, p))
+        ctx.label("shift:bitwise")
+
+
+def prop_extreme(case, ctx):
+    Y1_0, Y2_0, Y1, Y2, S, exact, places, form = extreme_pair(case, ctx)
+    d, op, rel = len(Y1), case["op"], case["rel"]
+    shs = [sh for (_, _, sh) in places]
+    ctx.label("op:" + op, "form:" + form, "rel:" + rel, f"d={d}" if d in (2, 3, 4, 50, 300, 1000, 3000) else "d=other",
+              "others:O(1)" if case["moderate"] else "others:any_total",
+              "huge" if min(shs) > 0 else ("tiny" if max(shs) < 0 else "huge_and_tiny"),
+              "exact_scaling" if exact else "subnormal_entries")
+    for (o, pos, sh) in places:
+        ctx.label(f"operand{o}:" + ("first" if pos == 0 else "last" if pos == d - 1 else "interior"))
+    if len(places) == 2:
+        ctx.label("same_position" if places[0][1] == places[1][1] else "different_positions")
+    if case["zero"]:
+        ctx.label("zero_core_in_Y1")
+    if any(A is B for A, B in zip(Y1, Y2)):
+        ctx.label("shared_core_objects")
+    ctx.nontrivial(True)                                            # the squares of the entries of a scaled core are not representable
+    snaps = snapshot(Y1), snapshot(Y2), snapshot(Y1_0), snapshot(Y2_0)
+    if op == "scalar":
+        v, p, ref, (rv, rp), _, _ = run_scalar(ctx, Y1, Y2, None, None, None)
+        g = Guard(ctx, "mul_scalar(Y2, Y1, use_stab=True)")
+        w, q = check_stab_pair(g, g.lib(teneva.mul_scalar, Y2, Y1, use_stab=True), "mul_scalar")
+        check_scalar_value(g, ctx, w, q, ref, rv, rp, "swapped arguments")
+        agree_stab(ctx, "mul_scalar(Y1, Y2) vs mul_scalar(Y2, Y1), extreme cores", (v, p), (w, q), None if ref.zero else ref.tol)
+        shifted_stab(ctx, "mul_scalar(Y1, Y2, use_stab=True)", (v, p), ctx.lib(teneva.mul_scalar, Y1_0, Y2_0, use_stab=True), S[0] + S[1], exact)
+        shifted_stab(ctx, "mul_scalar(Y2, Y1, use_stab=True)", (w, q), ctx.lib(teneva.mul_scalar, Y2_0, Y1_0, use_stab=True), S[0] + S[1], exact)
+    elif op == "norm":
+        for (Y, Y0, St, nm) in ((Y1, Y1_0, S[0], "Y1"), (Y2, Y2_0, S[1], "Y2")):
+            z, q, _, _, _ = run_norm(ctx, Y, None, None)
+            shifted_stab(ctx, f"norm({nm}, use_stab=True)", (z, q), ctx.lib(teneva.norm, Y0, use_stab=True), St, exact, half=True)
+    else:
+        orders = [(Y1, Y2, Y1_0, Y2_0, "accuracy(Y1, Y2)")]
+        if not case["zero"]:
+            orders.append((Y2, Y1, Y2_0, Y1_0, "accuracy(Y2, Y1)"))
+        for (A, B, A0, B0, nm) in orders:
+            acc, _ = run_accuracy(ctx, A, B, None, None, None)
+            if S[0] == S[1] and exact:
+                # both operands carry the same total factor: the relative distance is that of the ordinary pair, every Gram term keeps
+                # its mantissa and the three exponents move together
+                acc0 = float(ctx.lib(teneva.accuracy, A0, B0))
+                sat = (0.0, 1e299)
+                if acc == acc0:
+                    ctx.label("same_factor:bitwise")
+                elif acc in sat or acc0 in sat:
+                    o = acc0 if acc in sat else acc
+                    hi_side = 1e299 in (acc, acc0)
+                    ctx.check(o not in sat and ((o >= 2.0 ** 499) if hi_side else (0 < o <= 2.0 ** -499)),
+                              f"{nm}: the same power-of-two factor in both operands changed the result", scaled=acc, ordinary=acc0, s=S[0])
+                    ctx.label("same_factor:saturation_boundary")
+                else:
+                    ctx.check(abs(acc - acc0) <= 8 * EPS * acc0, f"{nm}: the same power-of-two factor in both operands changed the result",
+                              scaled=acc, ordinary=acc0, s=S[0])
+                    ctx.label("same_factor:within_8eps")
+    for Y, sn, nm in zip((Y1, Y2, Y1_0, Y2_0), snaps, ("Y1", "Y2", "ordinary Y1", "ordinary Y2")):
+        unchanged(ctx, Y, sn, "extreme cores: " + nm)
+
+
 # ------------------------------------------------------------------------------------------- small cores (underflow side)
 # Before repo commit 79c85eb core_stab left every state below 1e-100 unscaled, so one small step made the following ones underflow
 # (norm = 0 for entries of 2^-200 in three cores).  This sub-check keeps the underflow side densely covered: all totals negative.
@@ -1252,4 +1495,5 @@ SUBCHECKS = [
     Sub("shared", prop_shared, strategy=shared_cases, quick=40, thorough=400),
     Sub("tiny", prop_tiny, strategy=tiny_cases, quick=40, thorough=400),
     Sub("one_core", prop_one_core, strategy=one_core_cases, quick=16, thorough=300),
+    Sub("extreme_cores", prop_extreme, strategy=extreme_cases, quick=60, thorough=600),
 ]
